@@ -262,7 +262,7 @@ def judge(A, c, out):
         if tol > 0:
             if not rn <= tol * (1 + 1e-9) + 1e-12 * scale:
                 return 'lin:unconverged-returned:tol', 'returned {} with free-row residual {:.3e} > requested max(atol={:g}, rtol={:g}*{:.3e})'.format(x.tolist(), rn, c['atol'], c['rtol'], bn)
-        elif not rn <= 1e-8 * scale:
+        elif not rn <= 1e-7 * scale:
             AIJ = A[numpy.ix_(I, J)]
             if numpy.isfinite(AIJ).all() and numpy.linalg.cond(AIJ) < WELL:
                 return 'lin:unconverged-returned:atol0:' + _solver_class(c), 'machine precision requested (atol=rtol=0) on a system with condition number {:.1f}; returned {} with free-row residual {:.3e} (|b|={:.3e})'.format(
